@@ -426,6 +426,68 @@ pub fn run(c: &mut Ctx) {
         c.count("reference_pairs_accepted", ok);
     });
 
+    // the second decoder of a revocation lock: from_bytes must accept exactly the canonical encodings
+    c.case("revocation-lock/from_bytes", |c| {
+        use zkabacus_crypto::RevocationLock;
+        let mut rng = c.rng("revocation-lock/from_bytes");
+        let add_q = |b: &[u8; 32]| -> Option<[u8; 32]> {
+            let mut out = [0u8; 32];
+            let mut carry = 0u16;
+            for i in 0..32 {
+                let x = b[i] as u16 + wire::Q_LE[i] as u16 + carry;
+                out[i] = x as u8;
+                carry = x >> 8;
+            }
+            if carry == 0 { Some(out) } else { None }
+        };
+        let mut inputs: Vec<(String, [u8; 32], bool)> = vec![];
+        let mut q = [0u8; 32];
+        q.copy_from_slice(&wire::Q_LE);
+        inputs.push(("q".into(), q, false));
+        let mut q1 = q;
+        q1[0] = 2;
+        inputs.push(("q+1".into(), q1, false));
+        inputs.push(("2^256-1".into(), [0xff; 32], false));
+        let mut top = [0u8; 32];
+        top[31] = 0x80;
+        inputs.push(("2^255".into(), top, false));
+        inputs.push(("zero".into(), [0u8; 32], true));
+        inputs.push(("q-1".into(), crate::refs::q_minus_1().to_bytes(), true));
+        for k in 0..c.tier.pick(40, 400) {
+            let s = Scalar::random(&mut rng).to_bytes();
+            inputs.push((format!("canonical{}", k), s, true));
+            if let Some(nc) = add_q(&s) {
+                inputs.push((format!("canonical{}+q", k), nc, false));
+            }
+        }
+        for (name, b, canonical) in inputs {
+            c.eval();
+            c.distinct(&format!("lock-from-bytes/{}", name));
+            match guard(|| RevocationLock::from_bytes(&b)) {
+                Err(p) => c.violation(&format!("C15 decoder-panicked type=RevocationLock::from_bytes loc={}", repo_rel(&p.location)), json!({"input": hex(&b), "panic": p.message})),
+                Ok(Some(l)) => {
+                    if !canonical {
+                        c.violation(
+                            "C15 invalid-accepted type=RevocationLock::from_bytes position=* value=scalar-non-canonical",
+                            json!({"input": hex(&b), "class": name.split(char::is_numeric).next().unwrap_or(""), "as_bytes": hex(&l.as_bytes())}),
+                        );
+                    } else if l.as_bytes() != b {
+                        c.violation("C15 roundtrip-differs type=RevocationLock::from_bytes", json!({"input": hex(&b), "as_bytes": hex(&l.as_bytes())}));
+                    } else {
+                        c.count("lock_from_bytes_roundtrips", 1);
+                    }
+                }
+                Ok(None) => {
+                    if canonical {
+                        c.violation("C15 valid-rejected type=RevocationLock::from_bytes position=* value=canonical-scalar", json!({"input": hex(&b)}));
+                    } else {
+                        c.count("lock_from_bytes_rejected_non_canonical", 1);
+                    }
+                }
+            }
+        }
+    });
+
     // channel id text form
     c.case("channel-id/print-parse", |c| {
         let mut rng = c.rng("channel-id");
